@@ -7,7 +7,11 @@ from mir_eval import multipitch as mp
 from suites import multipitch as S
 
 PID = "C18"
-LEAN_MODULES = ["MirProofs.Props.C18"]
+LEAN_MODULES = ["MirProofs.Props.C18", "MirProofs.Props.C18_Gen"]
+# the count-level functions, the resampling and `metrics` are REGENERATED from mir_eval/multipitch.py on every run
+# (translator part `multipitch` -> lean/MirGen/Multipitch.lean) and proved equal to the hand model (Props/C18_Gen.lean);
+# suite `gen_multipitch` runs the GENERATED definitions (driver op `gen.multipitch`) against the real functions
+TRANSLATOR_PARTS = ["multipitch"]
 RULE = ("multipitch inputs with reference/estimate time bases on the 1/32 s lattice (equal, shifted by half a hop "
         "so that targets sit exactly between two estimate frames, sparser, denser, starting later, ending earlier, "
         "random, empty, single frame, duplicated stamps), 0-4 pitches per frame incl. empty frames and all-empty "
@@ -33,6 +37,8 @@ RULE += "; " + _FX.RULE_NOTE
 
 
 def classify(suite, d):
+    if suite == "gen_multipitch":
+        return classify_gen(d)
     if suite == "fixtures.multipitch":
         i = d.get("info") or {}
         op = d.get("op")
@@ -47,6 +53,120 @@ def classify(suite, d):
 
 EPS = 1e-9
 NAMES = ["precision", "recall", "accuracy", "e_sub", "e_miss", "e_fa", "e_tot"]
+
+
+# ----------------------------------------------------------------------------------------
+# the functions as REGENERATED from the source (driver op `gen.multipitch`, lean/MirGen/Multipitch.lean) vs the real
+# functions: exercises the translator's own semantic assumptions (NumPy broadcasting of 1-D count arrays, ragged
+# np.min / np.max, masked assignment, NumPy-scalar division incl. nan / inf, interp1d(kind='nearest') with its fill
+# value, list indexing, util.filter_kwargs) — lean/MirModel/PyMultipitch.lean
+from core import Case  # noqa: E402
+import itertools  # noqa: E402
+
+
+def _count_cases(tp, nr, ne, tag):
+    info = {"op": "gen.multipitch", "tp": list(tp), "n_ref": list(nr), "n_est": list(ne)}
+    a = (np.array(tp, dtype=float), np.array(nr, dtype=int), np.array(ne, dtype=int))
+    yield Case("gen.multipitch", ["compute_accuracy", list(tp), list(nr), list(ne)],
+               lambda a=a: [float(x) for x in mp.compute_accuracy(*a)],
+               tag=tag + " accuracy", info=dict(info, fn="compute_accuracy"), nontrivial=bool(sum(tp)))
+    yield Case("gen.multipitch", ["compute_err_score", list(tp), list(nr), list(ne)],
+               lambda a=a: [float(x) for x in mp.compute_err_score(*a)],
+               tag=tag + " err_score", info=dict(info, fn="compute_err_score"), nontrivial=bool(sum(nr)))
+
+
+def _retarget(case, fn, extra=()):
+    """a case of a hand-model suite asked of the generated definition instead"""
+    info = dict(case.info or {}, op="gen.multipitch", fn=fn)
+    return Case("gen.multipitch", [fn] + list(case.args) + list(extra), case.call, tol=case.tol, tag="gen " + case.tag,
+                info=info, nontrivial=case.nontrivial, post=case.post)
+
+
+def suite_gen_multipitch(rng, tier, shard, nshards):
+    """count arrays: ALL triples of equally long vectors over {0,1,2,3} up to length 2 (quick) / 3 (thorough), every
+    combination of lengths 0..3 (broadcasting of a length-1 operand, ragged stacks, empties), random longer ones incl.
+    all-zero sides, inconsistent and negative counts; frames: compute_num_freqs, midi_to_chroma,
+    compute_num_true_positives (pairs exactly at the window, unequal frame counts), resample_multipitch (ties, out of
+    range, unequal lengths) and the public metrics on the multipitch streams (all time-base kinds, faults)."""
+    cases = []
+    vals = (0, 1, 2, 3)
+    nmax = 2 if tier == "quick" else 3
+    for n in range(0, nmax + 1):
+        for tp in itertools.product(vals, repeat=n):
+            for nr in itertools.product(vals, repeat=n):
+                for ne in itertools.product(vals, repeat=n):
+                    cases += list(_count_cases(tp, nr, ne, "all n=%d" % n))
+    for k, c in enumerate(cases):
+        if k % nshards == shard:
+            yield c
+    # every combination of lengths (each shard draws its own values)
+    for la, lb, lc in itertools.product(range(4), repeat=3):
+        for _ in range(2 if tier == "quick" else 12):
+            tp = [rng.choice(vals) for _ in range(la)]
+            nr = [rng.choice(vals) for _ in range(lb)]
+            ne = [rng.choice(vals) for _ in range(lc)]
+            if rng.random() < 0.25:
+                nr = [0] * lb
+            for c in _count_cases(tp, nr, ne, "lengths %s" % ("equal" if la == lb == lc else "unequal")):
+                yield c
+    for _ in range(60 if tier == "quick" else 1500):
+        kind, tp, nr, ne = S.count_arrays(rng)
+        n = len(nr)
+        r = rng.random()
+        if r < 0.15:
+            n = rng.choice([13, 21, 40])
+            nr = [rng.choice([0, 0, 1, 2, 3, 4, 7]) for _ in range(n)]
+            ne = [rng.choice([0, 0, 1, 2, 3, 4, 7]) for _ in range(n)]
+            tp = [rng.randint(0, min(a, b)) for a, b in zip(nr, ne)]
+            kind = "long"
+        elif r < 0.25 and kind == "arbitrary":
+            tp = [rng.randint(-3, 5) for _ in tp]
+            nr = [rng.randint(-2, 4) for _ in nr]
+            ne = [rng.randint(-2, 4) for _ in ne]
+            kind = "negative"
+        for c in _count_cases(tp, nr, ne, kind):
+            yield c
+    # frames
+    for c in S.SUITES["mp_small"](rng, tier, shard, nshards):
+        if c.op == "multipitch.compute_num_freqs":
+            yield _retarget(c, "compute_num_freqs")
+        elif c.op == "multipitch.midi_to_chroma":
+            yield _retarget(c, "midi_to_chroma")
+    for k, c in enumerate(S.SUITES["mp_num_true_positives"](rng, tier, shard, nshards)):
+        if tier != "quick" or k < 150:
+            yield _retarget(c, "compute_num_true_positives")
+    for k, c in enumerate(S.SUITES["mp_resample"](rng, tier, shard, nshards)):
+        if tier != "quick" or k < 150:
+            yield _retarget(c, "resample_multipitch")
+    for k, c in enumerate(S.SUITES["mp_metrics"](rng, tier, shard, nshards)):
+        if tier != "quick" or k < 120:
+            yield _retarget(c, "metrics")
+    for k, c in enumerate(S.SUITES["mp_validate"](rng, tier, shard, nshards)):
+        if c.op == "multipitch.metrics" and (tier != "quick" or k < 60):
+            yield _retarget(c, "metrics")
+
+
+SUITES["gen_multipitch"] = suite_gen_multipitch
+
+
+def classify_gen(d):
+    """a disagreeing gen.multipitch case -> an input of the oracle of the property (where the property is claimed)"""
+    i = d.get("info") or {}
+    fn = i.get("fn")
+    if fn in ("compute_accuracy", "compute_err_score"):
+        tp, nr, ne = i["tp"], i["n_ref"], i["n_est"]
+        if len(tp) == len(nr) == len(ne) and all(0 <= t <= min(a, b) for t, a, b in zip(tp, nr, ne)):
+            return "multipitch.compute_scores", {"tp": tp, "n_ref": nr, "n_est": ne}
+        return None
+    if fn == "metrics" and "ref_time" in i:
+        return "multipitch.metrics", {k: i[k] for k in ("ref_time", "ref_midi", "est_time", "est_midi", "window")}
+    if fn == "compute_num_true_positives" and "ref_midi" in i:
+        return "multipitch.compute_num_true_positives", {k: i[k] for k in ("ref_midi", "est_midi", "window", "chroma")}
+    if fn == "resample_multipitch" and "times" in i:
+        if len(i["times"]) != len(i["freqs"]):
+            return None
+        return "multipitch.resample_multipitch", {k: i[k] for k in ("times", "freqs", "target")}
+    return None
 
 
 # --------------------------------------------------------------------------------------------- helpers
